@@ -181,6 +181,22 @@ def gen_rows(rng, world, thr, sr, er, malformed):
                     r = row_from_blocks(gene, tx, ex[:1], **kw('end_outside'))
                     r['end'] = gene['end'] + 3
                     rows.append(r)
+    # one back-splice junction reported for two or more isoforms (same chrom/start/end/strand, other isoformName and, where the
+    # isoforms differ inside, other blocks)
+    for gene in world['genes']:
+        txs = gene['transcripts']
+        for a in range(len(txs)):
+            for b in range(a + 1, len(txs)):
+                ea, eb = [tuple(e) for e in txs[a]['exons']], [tuple(e) for e in txs[b]['exons']]
+                starts = sorted({e[0] for e in ea} & {e[0] for e in eb})
+                ends = sorted({e[1] for e in ea} & {e[1] for e in eb})
+                pairs = [(s, e) for s in starts for e in ends if s < e]
+                rng.shuffle(pairs)
+                for s, e in pairs[:2]:
+                    for t, ex in ((txs[a], ea), (txs[b], eb)):
+                        bl = [x for x in ex if s <= x[0] and x[1] <= e]
+                        if bl and bl[0][0] == s and bl[-1][1] == e:
+                            rows.append(row_from_blocks(gene, t, bl, **kw('shared_junction')))
     if not malformed:
         # rows that abort the whole run (a block outside the gene) belong to the malformed stream
         def inside(r):
@@ -189,6 +205,13 @@ def gen_rows(rng, world, thr, sr, er, malformed):
                 and g['start'] <= r['start'] and r['end'] <= g['end']
         rows = [r for r in rows if inside(r)]
     rng.shuffle(rows)
+    for k, r in enumerate(rows):
+        r['name'] = 'circular_RNA/%d' % (k + 1)          # row tag (read back through the record's name)
+    # rows repeated verbatim (merged result tables)
+    for _ in range(rng.choice([0, 1, 2])):
+        if rows:
+            r = dict(rng.choice(rows)); r['kind'] = r['kind'] if r['kind'].endswith('/repeat') else r['kind'] + '/repeat'
+            rows.insert(rng.randrange(len(rows) + 1), r)
     return rows
 
 def gen_case(rng, world, malformed=False, ce3=None):
@@ -353,7 +376,19 @@ def evaluate(ctx, cases):
         row = c['rows'][ri]
         st['evaluations'] += 1
         g, t = find_tx(w, row['tx'])
-        got = canon(r['lib'][ri])
+        got = canon(r['lib'][ri]) if ri < len(r['lib']) else {'__missing__': True}
+        if isinstance(got, dict) and got.get('__missing__'):
+            # the reader did not yield this row: neither emitted nor counted
+            same = [k for k in range(ri) if (c['rows'][k]['chrom'], c['rows'][k]['start'], c['rows'][k]['end'], c['rows'][k]['strand']) ==
+                    (row['chrom'], row['start'], row['end'], row['strand'])]
+            small = dict(c, rows=[c['rows'][k] for k in same[:1]] + [row])
+            bump('missing_row/%s' % row['kind'])
+            if sum(1 for v in viol if not v['no_input']) < 10:
+                viol.append({'what': 'parseCIRCexplorer: the row %s:%d-%d %s of isoform %s (%s) is not read by CIRCexplorerParser.parse - it is neither '
+                                     'converted nor counted%s' % (row['chrom'], row['start'], row['end'], row['strand'], row['tx'], row['kind'],
+                                     '; an earlier row reports the same junction for isoform %s' % c['rows'][same[0]]['tx'] if same else ''),
+                             'no_input': False, 'replay_obj': {'kind': 'case', 'case': small}})
+            continue
         if m[0] == 0:
             exp = expected_record(w, row, m[1])
             exp['seq'] = seqs[(ci, ri)]
